@@ -27,6 +27,25 @@ impl Visitor for Rec {
     fn visit_type_ref(&mut self, x: &TypeRef) { self.t.push(ev("typeref", x.span())); }
 }
 
+/// records (kind, file, row, col) of everything it is shown
+#[derive(Default)]
+struct RecFile { t: Vec<(String, String, usize, usize)> }
+impl RecFile { fn p(&mut self, k: &str, s: &slicec::slice_file::Span) { self.t.push((k.to_owned(), s.file.clone(), s.start.row, s.start.col)); } }
+impl Visitor for RecFile {
+    fn visit_file(&mut self, _: &SliceFile) {}
+    fn visit_module(&mut self, x: &Module) { self.p("module", x.span()); }
+    fn visit_struct(&mut self, x: &Struct) { self.p("struct", x.span()); }
+    fn visit_interface(&mut self, x: &Interface) { self.p("interface", x.span()); }
+    fn visit_enum(&mut self, x: &Enum) { self.p("enum", x.span()); }
+    fn visit_operation(&mut self, x: &Operation) { self.p("operation", x.span()); }
+    fn visit_custom_type(&mut self, x: &CustomType) { self.p("custom", x.span()); }
+    fn visit_type_alias(&mut self, x: &TypeAlias) { self.p("alias", x.span()); }
+    fn visit_field(&mut self, x: &Field) { self.p("field", x.span()); }
+    fn visit_parameter(&mut self, x: &Parameter) { self.p("parameter", x.span()); }
+    fn visit_enumerator(&mut self, x: &Enumerator) { self.p("enumerator", x.span()); }
+    fn visit_type_ref(&mut self, x: &TypeRef) { self.p("typeref", x.span()); }
+}
+
 fn o_typeref(t: &TypeRef, out: &mut Vec<Ev>) {
     out.push(ev("typeref", t.span()));
     if matches!(&t.definition, TypeRefDefinition::Unpatched(_)) { return; }
@@ -73,7 +92,7 @@ fn oracle(f: &SliceFile) -> Vec<Ev> {
 }
 
 pub fn run() -> i32 {
-    let mut rep = Report::new("visitor", "corpus of 10 programs (single and two-file) covering every element kind, inheritance, nested sequence/dictionary/result types to depth 3");
+    let mut rep = Report::new("visitor", "corpus of 10 programs (single and two-file) covering every element kind, inheritance, nested sequence/dictionary/result types to depth 3, against the model order; 4 programs with anonymous types shared through aliases: nothing presented twice, nothing from another file");
     let corpus: Vec<Vec<&str>> = vec![
         vec!["module M\nstruct A { a: int32, b: Sequence<string>?, c: Dictionary<int32, Sequence<bool>> }\n"],
         vec!["module M\ninterface I { op(a: int32, b: Sequence<Sequence<uint8>>) -> (x: string, y: Dictionary<string, Result<int32, string>>) \n op2() }\n"],
@@ -104,6 +123,39 @@ pub fn run() -> i32 {
             Ok(Ok(res)) => for (k, (got, want)) in res.iter().enumerate() {
                 rep.case(want.len() > 3, || format!("file {k} of {prog:?}: {} events", want.len()));
                 if got != want { rep.counterexample(&format!("file {k} of {prog:?}"), &format!("{want:?}"), &format!("{got:?}")); }
+            },
+        }
+    }
+    // ---- "Nothing is presented twice ... and nothing from another file is presented", checked on the events themselves (not against the
+    //      model above, which walks type references the way the code does): every (kind, location) at most once; every location lies in
+    //      the walked file. Programs where an anonymous type is SHARED through an alias (used twice; defined in another file).
+    let shared: Vec<Vec<&str>> = vec![
+        vec!["module M\ntypealias T = Sequence<bool>\nstruct S { a: T, b: T }\n"],
+        vec!["module M\ntypealias T = Dictionary<string, Sequence<int32>>\ninterface I { op(p: T) -> T }\n"],
+        vec!["module A\ntypealias T = Sequence<bool>\n", "module B\nstruct S { a: A::T }\n"],
+        vec!["module M\nstruct S { a: Sequence<bool>, b: Sequence<bool> }\n"],
+    ];
+    for prog in &shared {
+        let r = std::panic::catch_unwind(|| {
+            let state = slicec::compile_from_strings(prog, None);
+            if state.diagnostics.has_errors() { return Err("corpus program does not compile".to_owned()); }
+            let mut res = vec![];
+            for f in &state.files {
+                let mut rec = RecFile::default();
+                f.visit_with(&mut rec);
+                res.push((f.relative_path.clone(), rec.t));
+            }
+            Ok(res)
+        });
+        match r {
+            Err(_) => rep.counterexample(&format!("{prog:?}"), "a traversal", "PANIC"),
+            Ok(Err(m)) => rep.counterexample(&format!("{prog:?}"), "compiles", &m),
+            Ok(Ok(res)) => for (k, (path, evs)) in res.iter().enumerate() {
+                rep.case(true, || format!("shared anonymous types: file {k} of {prog:?}"));
+                let mut seen = std::collections::HashSet::new();
+                let twice: Vec<String> = evs.iter().filter(|e| !seen.insert((*e).clone())).map(|e| format!("{} at {}:{}:{}", e.0, e.1, e.2, e.3)).collect();
+                let foreign: Vec<String> = evs.iter().filter(|e| !e.1.is_empty() && &e.1 != path).map(|e| format!("{} at {}:{}:{}", e.0, e.1, e.2, e.3)).collect();
+                if !twice.is_empty() || !foreign.is_empty() { rep.counterexample(&format!("file {k} ({path}) of {prog:?}"), "nothing presented twice, nothing from another file", &format!("presented again: {twice:?}; from another file: {foreign:?}")); }
             },
         }
     }
